@@ -85,19 +85,20 @@ Record facts := {
   f_pure : bool;            (* Expr: typep.SideEffectFree *)
   f_cst : option string;    (* Expr: constant string value *)
   f_sig : sigfact;          (* Expr: TypeOf is a signature *)
+  f_istype : bool;          (* Expr: denotes a type (types.TypeAndValue.IsType), e.g. the Fun of a conversion *)
   f_multi : N;              (* Call: number of results when it yields a tuple of >= 2 values, else 0 *)
   f_basic : option (N * N * N)  (* Expr: underlying basic type: (info flags, kind, size in bytes) *)
 }.
 
 Definition nf : facts :=
   {| f_obj := ONone; f_objid := 0; f_astobj_nil := true; f_ty := TyOther; f_deflit := false; f_arr := false; f_pure := false;
-     f_cst := None; f_sig := NoSig; f_multi := 0; f_basic := None |}.
+     f_cst := None; f_sig := NoSig; f_istype := false; f_multi := 0; f_basic := None |}.
 
 (* compact constructor used by the converter *)
 Definition F (o : okind) (id : N) (astnil : bool) (t : tyclass) (deflit arr pure : bool) (cst : option string)
-  (sg : sigfact) (multi : N) : facts :=
+  (sg : sigfact) (istype : bool) (multi : N) : facts :=
   {| f_obj := o; f_objid := id; f_astobj_nil := astnil; f_ty := t; f_deflit := deflit; f_arr := arr; f_pure := pure;
-     f_cst := cst; f_sig := sg; f_multi := multi; f_basic := None |}.
+     f_cst := cst; f_sig := sg; f_istype := istype; f_multi := multi; f_basic := None |}.
 
 Inductive node := Nd (t : tag) (pos : N) (s : string) (a b : N) (f : facts) (kids : nodes)
 with nodes := NN | NC (n : node) (r : nodes).
@@ -239,7 +240,8 @@ Definition wf_call (n : node) : bool :=
   | fn :: args =>
       let fm := match args with x :: _ => f_multi (nfacts x) | [] => 0%N end in
       let ell := N.eqb (na n) 1 in
-      arity_ok (length args) ell fm (f_sig (nfacts fn)) &&
+      (* a conversion T(x) has one operand; otherwise the signature decides *)
+      (if f_istype (nfacts fn) then Nat.eqb (length args) 1 else arity_ok (length args) ell fm (f_sig (nfacts fn))) &&
       (* `f(x...)` needs an argument *)
       (negb ell || negb (Nat.eqb (length args) 0)) &&
       (* builtins new / append *)
